@@ -11,7 +11,7 @@ pub fn meta() -> PropertyMeta {
     PropertyMeta {
         id: "C03",
         level: "exploration",
-        rule: "(a) exhaustive: every definition UPPER{1..3 over A,B} lower{0..2 over a,b} suffix in {none,1,2,10} x every candidate string up to length 5 (quick) / 6 (thorough) over {A,a,B,b,0,1,2,_}; (b) generated definitions up to 12 characters x candidates derived from them (every prefix, one-character extensions, case flips, suffix variants none/1/01/2/defined/defined+-1/0-prefixed) and random strings up to 12 characters. Oracle: independent reference matcher, an iff. Numeric suffixes of up to 11 digits with candidates that change one digit, drop the first or prepend one. Non-trivial: the candidate shares at least its first character (ignoring case) with the definition, so the verdict is not decided at byte 0.",
+        rule: "(a) exhaustive: every definition UPPER{1..3 over A,B} lower{0..2 over a,b} suffix in {none,1,2,10} x every candidate string up to length 5 (quick) / 6 (thorough) over {A,a,B,b,0,1,2,_}; (b) generated definitions up to 12 characters x candidates derived from them (every prefix, one-character extensions, case flips, suffix variants none/1/01/2/defined/defined+-1/0-prefixed) and random strings up to 12 characters. Oracle: independent reference matcher, an iff. Numeric suffixes of up to 11 digits with candidates that change one digit, drop the first or prepend one; (c) candidates whose numeric suffix is congruent to the defined one modulo 2^8, 2^16, 2^32 (as a number, and folded with a leading-one sentinel) at every length up to 11 digits. Non-trivial: the candidate shares at least its first character (ignoring case) with the definition, so the verdict is not decided at byte 0.",
         assumptions: &[
             "definitions have SCPI shape UPPER+ lower* digit* (now and then with digits embedded in the upper-case part, e.g. P6V, CH1A); the trailing digit run is the numeric suffix",
             "a candidate suffix that is numerically equal to the defined one but spelled with leading zeros is not judged (the property does not say whether 01 equals 1)",
@@ -242,6 +242,57 @@ fn pair_strategy() -> impl Strategy<Value = Pair> {
     })
 }
 
+/// Candidates whose numeric suffix differs from the defined one but is congruent to it modulo
+/// 2^8 / 2^16 / 2^32 - as a plain number, and as a number folded with a leading-one sentinel
+/// (the usual trick to keep leading zeros significant): what a comparison through a wrapping
+/// integer would confuse. The suffix is text ('CH257' is not 'CH1'); the alphabetic part is
+/// the defined one in its short and long form.
+fn wraparound_aliases() -> Vec<Pair> {
+    let defs = ["CH", "CH1", "CH2", "Ab2", "CHANnel7", "X255", "X256", "Q65535", "OUTPut10", "T0", "Ab01", "SERial4294967295", "P99999"];
+    let mut v = Vec::new();
+    for def in defs {
+        let def = &def[..def.len().min(12)];
+        let (da, ds) = mnemonic::split_suffix(def.as_bytes());
+        let ds: &[u8] = if ds.is_empty() { b"1" } else { ds };
+        let Ok(val) = std::str::from_utf8(ds).unwrap().parse::<u128>() else { continue };
+        let alphas = [mnemonic::short_of(da).to_vec(), da.to_vec()];
+        for sentinel in [0u128, 1] {
+            let key = sentinel * 10u128.pow(ds.len() as u32) + val;
+            for w in [8u32, 16, 32] {
+                let modulus = 1u128 << w;
+                for n in 1..=11u32 {
+                    // all t of n digits with sentinel * 10^n + t == key (mod 2^w)
+                    let base = sentinel * 10u128.pow(n);
+                    let lo = base;
+                    let hi = base + 10u128.pow(n) - 1;
+                    // smallest x >= lo with x == key (mod 2^w)
+                    let r = key % modulus;
+                    let mut x = lo - lo % modulus + r;
+                    if x < lo {
+                        x += modulus;
+                    }
+                    let mut taken = 0;
+                    while x <= hi && taken < 48 {
+                        let t = format!("{:0width$}", x - base, width = n as usize);
+                        if t.as_bytes() != ds {
+                            for a in &alphas {
+                                if a.len() + t.len() <= 12 {
+                                    v.push(Pair { def: def.to_string(), cand: format!("{}{}", String::from_utf8_lossy(a), t) });
+                                }
+                            }
+                        }
+                        taken += 1;
+                        // spread over the whole range when there are many
+                        let count = (hi - x) / modulus;
+                        x += modulus * (count / 48).max(1);
+                    }
+                }
+            }
+        }
+    }
+    v
+}
+
 fn run(e: &Engine) {
     let defs = small_defs();
     let max_len = e.tier.pick(5, 6);
@@ -260,6 +311,7 @@ fn run(e: &Engine) {
         },
         check_pair,
     );
+    e.fixed("numeric-suffix-wraparound-aliases", wraparound_aliases(), check_pair);
     e.proptest("derived-candidates", e.tier.pick(400_000, 20_000_000), pair_strategy, check_pair);
     for l in ["positive", "negative sharing a prefix"] {
         if !e.replay_only && !e.failed() && e.label_count(l) == 0 {
